@@ -139,7 +139,24 @@ static void loop_scenario(rng &r0, int reactor, int producers, int actions, std:
 	{ sth h = { &st }; srv.set_timer_event(ptime::now() + ptime::from_number(0.08), h); }
 	double t0 = ptime::to_number(ptime::now());
 	bool watchdog = false;
-	while (!(s2.load() && st.load())) { usleep(2000); if (ptime::to_number(ptime::now()) - t0 > 120) { watchdog = true; break; } }
+	{
+		// bounded progress: if no handler at all ran for 30 s although due handlers are queued, wake the loop with an unrelated post;
+		// when that alone makes everything complete, the loop had gone to sleep past due work (a timeout computed as "forever")
+		long last = g_progress.load(); double tl = t0; bool woke = false; double tw = 0;
+		while (!(s2.load() && st.load())) {
+			usleep(2000);
+			double now = ptime::to_number(ptime::now());
+			long p = g_progress.load();
+			if (p != last) { last = p; tl = now; }
+			if (!woke && now - tl > 30) { struct noop { void operator()() const {} }; srv.post(noop()); woke = true; tw = now; }
+			if (now - t0 > 120) { watchdog = true; break; }
+		}
+		if (woke && !watchdog && ptime::to_number(ptime::now()) - tw < 10) {
+			O().viol("aio:loop-slept-past-due-handlers-until-an-unrelated-wakeup", rname + ": no handler ran for 30 s with due timers and queued handlers pending; an unrelated post() released them", "{\"reactor\":\"" + rname + "\",\"producers\":" + std::to_string(producers) + "}");
+			srv.stop(); loop.join(); for (int fd : all_fds) close(fd);
+			return;
+		}
+	}
 	if (!watchdog) { std::atomic<int> s4(0); s1h h = { &srv, &s4 }; srv.post(h); while (!s4.load()) { usleep(500); if (ptime::to_number(ptime::now()) - t0 > 240) { watchdog = true; break; } } }
 	srv.stop();
 	loop.join();
@@ -287,6 +304,48 @@ static void overtake_scenario(rng &r, int reactor, int iterations)
 	O().count("overtake_scenarios");
 }
 
+// Timers with nearly equal deadlines on an otherwise quiet loop: the loop must not go to sleep past the second one.
+// Bounded progress instead of "eventually": both handlers are awaited for 10 s; if they are still missing, one unrelated
+// post() is made - when that alone releases them the loop had computed a sleep that ignored a due timer.
+static void near_deadline_scenario(rng &r, int reactor, int pairs)
+{
+	aio::io_service srv(reactor);
+	logbook lb;
+	std::atomic<bool> started(false);
+	std::thread loop([&]() { started = true; srv.run(); });
+	while (!started.load()) sched_yield();
+	std::string rp = "{\"scenario\":\"near_deadlines\",\"reactor\":" + std::to_string(reactor) + "}";
+	bool bad = false;
+	for (int it = 0; it < pairs && !bad; it++) {
+		std::atomic<int> d1(0), d2(0), d3(0);
+		ptime base = ptime::now() + ptime::from_number(0.002);
+		int gap_us = (int[]){ 1, 1, 2, 5, 30, 0 }[r.below(6)];
+		long i1 = lb.add(K_TIMER_FIRE, ptime::to_number(base)); { ev_handler h = { &lb, i1, &d1 }; srv.set_timer_event(base, h); }
+		ptime second = base + ptime::microseconds(gap_us);
+		long i2 = lb.add(K_TIMER_FIRE, ptime::to_number(second)); { ev_handler h = { &lb, i2, &d2 }; srv.set_timer_event(second, h); }
+		bool three = r.chance(1, 3);
+		if (three) { ptime third = second + ptime::microseconds(1); long i3 = lb.add(K_TIMER_FIRE, ptime::to_number(third)); ev_handler h = { &lb, i3, &d3 }; srv.set_timer_event(third, h); } else d3 = 1;
+		double t0 = ptime::to_number(ptime::now());
+		while (!(d1.load() && d2.load() && d3.load()) && ptime::to_number(ptime::now()) - t0 < 10) usleep(200);
+		O().count("near_deadline_groups"); O().count("handlers_registered", three ? 3 : 2);
+		if (d1.load() && d2.load() && d3.load()) continue;
+		struct noop { void operator()() const {} };
+		srv.post(noop());
+		double t1 = ptime::to_number(ptime::now());
+		while (!(d1.load() && d2.load() && d3.load()) && ptime::to_number(ptime::now()) - t1 < 5) usleep(200);
+		if (d1.load() && d2.load() && d3.load()) O().viol("aio:loop-slept-past-due-handlers-until-an-unrelated-wakeup", "timers " + std::to_string(gap_us) + " us apart on a quiet loop: not all handlers ran within 10 s of the deadline; an unrelated post() released them", rp);
+		else O().count("near_deadline_inconclusive");
+		bad = true;
+	}
+	srv.stop(); loop.join();
+	if (!bad) {
+		std::vector<int> count(lb.regs.size(), 0);
+		for (auto const &x : lb.runs) { count[x.id]++; if (x.err) O().viol("aio:timer-delivered-error", "near deadlines", rp); else if (x.at + 1e-6 < lb.regs[x.id].deadline) O().viol("aio:timer-fired-before-its-deadline", "near deadlines", rp); }
+		for (size_t id = 0; id < count.size(); id++) if (count[id] != 1) { O().viol(count[id] ? "aio:handler-ran-more-than-once:timer_fire" : "aio:handler-never-ran:timer_fire", "near deadlines", rp); break; }
+	}
+	O().count("near_deadline_scenarios");
+}
+
 // Two timers expire in the same loop iteration; the first one's handler arms fresh timers and then cancels the second timer
 // (whose handler is already queued, which the caller cannot know). None of the fresh timers was cancelled by anybody.
 static void slot_reuse_scenario(rng &r, int reactor, int far_count)
@@ -388,6 +447,7 @@ int main(int argc, char **argv)
 	for (long long i = 0; i < rounds && O().viol_count < 10; i++) {
 		for (int ri = 0; ri < 3; ri++) {
 			if (mode == "all" || mode == "loop") loop_scenario(r, reactors[ri], r.range(1, (int)a.num("producers", 6)), actions, "");
+			if (mode == "all" || mode == "near") near_deadline_scenario(r, reactors[ri], (int)a.num("near", 40));
 			if (mode == "all" || mode == "overtake") overtake_scenario(r, reactors[ri], (int)a.num("overtake", 150));
 			if (mode == "all" || mode == "objects") for (int k = 0; k < 5; k++) object_scenario(r, reactors[ri]);
 			if (mode == "all" || mode == "objects" || mode == "reuse") for (int k = 0; k < 6; k++) slot_reuse_scenario(r, reactors[ri], (int[]){ 0, 50, 400, 900 }[r.below(4)]);
